@@ -172,6 +172,7 @@ func checkC11(c *Ctx) {
 	// vN → versionN rename keeps the generated content independent of what is already on disk
 	checkFoldedPatterns(c, "C11.R5.versioned-packages", gen)
 	checkVersionedImports(c, "C11.R5.versioned-imports", gen)
+	checkExternalRecognised(c, "C11.R6.external-recognised", gen)
 }
 
 func checkConfigureWiring(c *Ctx, gen, cmd *packages.Package) {
@@ -443,4 +444,107 @@ func checkWriteUnconditional(c *Ctx, rule string, gen *packages.Package) {
 	})
 	c.Check(lastWrite.IsValid() && len(early) == 0, rule, "generator.GenOpts.write › the SkipExists guard is the only success return before the file is written", c.posOf(gen, fd.Pos()), "every other target is rewritten on every run",
 		fmt.Sprintf("write() returns nil before writing at %v outside the SkipExists guard: a file left by a previous run (e.g. the embedded spec) survives a regeneration from a changed spec", early))
+}
+
+// checkExternalRecognised: a definition carrying x-go-type designates a type the user wrote;
+// the generator leaves its file alone only as long as the extension is recognised. The
+// recognition is the lenient decode of the extension: hasExternalType gives up only when the
+// extension is absent or the lenient decoder fails, and isExternal adds only the embedded test.
+func checkExternalRecognised(c *Ctx, rule string, gen *packages.Package) {
+	c.Rule(rule, "x-go-type is recognised by a lenient decode: hasExternalType answers false only when the extension is absent or mapstructure.Decode fails; no strict decoder configuration; isExternal = recognised ∧ not embedded", 4)
+	info := gen.TypesInfo
+	fd := load.FuncDecl(gen, "hasExternalType")
+	if fd == nil {
+		c.Anchor(rule, "generator.hasExternalType", "not found")
+		return
+	}
+	// the decode call
+	var decodes []string
+	ast.Inspect(fd.Body, func(n ast.Node) bool {
+		if call, ok := n.(*ast.CallExpr); ok {
+			if fn := goan.Callee(info, call); fn != nil && fn.Pkg() != nil && strings.Contains(fn.Pkg().Path(), "mapstructure") {
+				decodes = append(decodes, fn.Name())
+			}
+		}
+		return true
+	})
+	lenient := len(decodes) > 0
+	for _, d := range decodes {
+		// a configured decoder is as lenient as Decode unless it sets a strict option (below)
+		lenient = lenient && (d == "Decode" || d == "WeakDecode" || d == "NewDecoder")
+	}
+	c.Check(lenient, rule, "generator.hasExternalType › decoder", c.posOf(gen, fd.Pos()), "mapstructure."+strings.Join(decodes, ","),
+		fmt.Sprintf("hasExternalType decodes x-go-type through %v rather than the lenient mapstructure decoder: an extension the lenient decoder accepts (an extra key, a loosely typed value) is no longer recognised, the definition is planned like any other model and the file the user wrote for it is overwritten", decodes))
+	// strict decoder options anywhere in the package
+	strict := 0
+	for _, f := range gen.Syntax {
+		ast.Inspect(f, func(n ast.Node) bool {
+			cl, ok := n.(*ast.CompositeLit)
+			if !ok {
+				return true
+			}
+			tv, ok := info.Types[cl]
+			if !ok || !strings.HasSuffix(tv.Type.String(), "mapstructure/v2.DecoderConfig") && !strings.HasSuffix(tv.Type.String(), "mapstructure.DecoderConfig") {
+				return true
+			}
+			for _, el := range cl.Elts {
+				if kv, ok := el.(*ast.KeyValueExpr); ok {
+					if k, ok := kv.Key.(*ast.Ident); ok && (k.Name == "ErrorUnused" || k.Name == "ErrorUnset") {
+						if v, ok := info.Types[kv.Value]; !ok || v.Value == nil || v.Value.String() != "false" {
+							strict++
+							c.Bad(rule, "generator › strict decoder option "+k.Name, c.posOf(gen, kv.Pos()),
+								"a decoder of the generator package sets "+k.Name+": input the lenient decoder accepts is rejected, and what the rejected extension protected (an x-go-type model file written by the user) is generated over")
+						}
+					}
+				}
+			}
+			return true
+		})
+	}
+	if strict == 0 {
+		c.Ok(rule, "generator › no strict decoder option", "", "no DecoderConfig literal sets ErrorUnused / ErrorUnset")
+	}
+	// every `false` answer of hasExternalType
+	n := 0
+	goan.WalkGuards(info, fd.Body, func(leaf ast.Node, guards []goan.Lit, _ []ast.Stmt) {
+		ret, ok := leaf.(*ast.ReturnStmt)
+		if !ok || len(ret.Results) != 2 {
+			return
+		}
+		if tv, ok := info.Types[ret.Results[1]]; !ok || tv.Value == nil || tv.Value.String() != "false" {
+			return
+		}
+		n++
+		var conds []string
+		for _, g := range guards {
+			if !g.Early {
+				conds = append(conds, g.String())
+			}
+		}
+		sort.Strings(conds)
+		got := strings.Join(conds, " ∧ ")
+		okCond := got == "!(ok)" || got == "err != nil"
+		c.Check(okCond, rule, fmt.Sprintf("generator.hasExternalType › answers false #%d", n), c.posOf(gen, ret.Pos()), "under "+got,
+			fmt.Sprintf("hasExternalType answers false under [%s]: beyond an absent extension and a failed lenient decode, a definition with x-go-type is treated as a model to generate and the user's file is overwritten", got))
+	})
+	// isExternal
+	if ie := load.FuncDecl(gen, "isExternal"); ie == nil {
+		c.Anchor(rule, "generator.isExternal", "not found")
+	} else {
+		okRet := false
+		for _, st := range ie.Body.List {
+			if ret, ok := st.(*ast.ReturnStmt); ok && len(ret.Results) == 1 {
+				var lits []goan.Lit
+				goan.Flatten(ret.Results[0], true, &lits)
+				var ss []string
+				for _, l := range lits {
+					ss = append(ss, l.String())
+				}
+				sort.Strings(ss)
+				okRet = strings.Join(ss, " ∧ ") == "!(extType.Embedded) ∧ ok"
+			}
+		}
+		c.Check(okRet, rule, "generator.isExternal › result", c.posOf(gen, ie.Pos()), "ok ∧ !extType.Embedded",
+			"isExternal is no longer `recognised and not embedded`: a definition with x-go-type is planned as a generated model and overwrites the user's file")
+	}
 }
